@@ -22,7 +22,7 @@ RULE = (
     "on NaN-free (nanarg*: not-all-NaN) groups only. Non-trivial = >=2 blocks along a reduced axis and (a group "
     "spanning >=2 blocks, or a group absent from a block, or a block whose labels are all missing)."
 )
-BUDGET = {"quick": 400, "thorough": 5000}
+BUDGET = {"quick": 800, "thorough": 5000}
 ASSUMPTIONS = [
     "eager result is the reference (its own agreement with NumPy is C01's business)",
     "dyadic value alphabets make every bracketing of partial sums exact",
